@@ -125,12 +125,16 @@ class _CheckingJacobian(DictionaryJacobian):
         super().__init__(system)
 
     def _setup(self, system):
-        self._subjacs_info = self._subjacs_info.copy()
-
-        # the metadata dicts are shared with the system, so forget what an earlier check recorded
-        for meta in self._subjacs_info.values():
+        # The approximated columns are written into these sub-jacobians, so they must not share
+        # their metadata or their value arrays with the system's own jacobian.
+        subjacs_info = {}
+        for key, meta in self._subjacs_info.items():
+            subjacs_info[key] = meta = meta.copy()
+            if hasattr(meta['val'], 'copy'):  # ndarray or scipy sparse matrix
+                meta['val'] = meta['val'].copy()
             meta.pop('uncovered_nz', None)
             meta.pop('uncovered_threshold', None)
+        self._subjacs_info = subjacs_info
 
         self._setup_index_maps(system)
         self._subjacs = self._get_subjacs(system)
